@@ -37,8 +37,10 @@ def spaces(tier):
     small = [('M2-O8', 2, M.O8, None, False, False), ('M3-O5-D1', 3, M.O5, 1, False, False),
              ('M3-O5-D1-wild', 3, M.O5, 1, True, False)]
     if tier == 'quick':
-        return small + [('M3-O5-D2', 3, M.O5, 2, False, True), ('M4-O5-D1', 4, M.O5, 1, False, True)]
-    return small + [('M3-O5-D2', 3, M.O5, 2, False, False), ('M4-O5-D1', 4, M.O5, 1, False, False)]
+        return small + [('M3-O5-D2', 3, M.O5, 2, False, True), ('M4-O5-D1', 4, M.O5, 1, False, True),
+                        ('M4-O5-D0-wild', 4, M.O5, 0, True, False)]
+    return small + [('M3-O5-D2', 3, M.O5, 2, False, False), ('M4-O5-D1', 4, M.O5, 1, False, False),
+                    ('M4-O5-D0-wild', 4, M.O5, 0, True, False), ('M4-O5-D1-wild', 4, M.O5, 1, True, False)]
 
 
 def shards(tier, seed):
@@ -166,7 +168,7 @@ def run_shard(shard, acc):
 BASE_ATTR = [None, 'use="optional"', 'use="required"', 'use="optional" fixed="1"', 'use="required" fixed="1"',
              'use="optional" default="1"', 'use="prohibited"']
 DER_ATTR = [None, 'use="optional"', 'use="required"', 'use="prohibited"', 'use="optional" fixed="1"',
-            'use="optional" fixed="2"', 'use="required" fixed="2"', 'use="optional" default="2"']
+            'use="optional" fixed="2"', 'use="required" fixed="2"', 'use="optional" default="2"', 'use="optional" default="1"']
 ATTR_TYPES = ['xs:string', 'xs:int', 'xs:short']
 ANYATTR = [None, '##any', '##other', '##local']
 ATTR_VALUES = [None, '1', '2', '01', '40000', 'x']
